@@ -11,6 +11,7 @@ import Precis.Spec.Rules
 import Precis.Spec.Rfc5893
 import Precis.Spec.Rfc5892
 import Precis.Spec.Rfc8264
+import Precis.Spec.Profiles
 namespace Precis.Spec
 open Precis.Proto Precis
 
@@ -26,12 +27,6 @@ def ruleOfName (n : String) : Option Rule :=
 def Rule.name : Rule → String
   | .zwnj => "zwnj" | .zwj => "zwj" | .middleDot => "middledot" | .keraia => "keraia"
   | .hebrew => "hebrew" | .katakana => "katakana" | .arabic => "arabic" | .extArabic => "extarabic"
-
-/-- derived property per the IANA registry (U+0000..U+10FFFF), DISALLOWED above -/
-def dp63 (identifier : Bool) (cp : Nat) : DPV :=
-  match Iana.expect identifier (iana63 cp) with
-  | some v => v
-  | none => .disallowed
 
 def parseDpv (s : String) : DPV :=
   match s with
@@ -108,6 +103,16 @@ def verdict (case impl : String) : String :=
       | [k, v] => some (parseHex k, parseDpv v)
       | _ => none)
     allowsVerdict (fun c => (m.lookup c).getD dflt) (parseStr (arg 3)) impl
+  | "prof" => profVerdict (arg 1) (arg 2) (parseStr (arg 5)) (parseStr (arg 6)) impl
+  | "composed" =>
+    (match arg 1, arg 2 with
+     | "nick", "round" => expectOut impl (nickRound (parseStr (arg 3))) false
+     | "nick", "cround" => expectOut impl (nickCompareRound (parseStr (arg 3))) false
+     | p, op => profVerdict p op (parseStr (arg 3)) [] impl)
+  | "forbidden" =>
+    (match forbiddenIn (arg 1) (parseStr (arg 2)) with
+     | none => "ok"
+     | some c => "VIOLATED:enforced output contains " ++ hex4 c ++ " (" ++ (dp63 (arg 1 == "um" || arg 1 == "up") c).name ++ ")")
   | "cls.id" => want impl (dp63 true (parseHex (arg 1))).name
   | "cls.ff" => want impl (dp63 false (parseHex (arg 1))).name
   | "hasrtl" => want impl (toString ((parseStr (arg 1)).any (fun c => isRtlTrigger (bidi16 c))))
